@@ -4,6 +4,8 @@ CONSTANTS
   Contents = {"x", "y"}
   MaxDepth = 3
   Probes = 0
+  MaxNodes = 99
+  Slim = FALSE
   Rich = FALSE
   HistLen = 16
 INVARIANTS EmitHist InvWellFormed
